@@ -128,10 +128,10 @@ def _advances_and_stores(u, fn):
     cfg = fn.cfg()
     for n in cfg.nodes:
         for ev in node_effects(n):
-            if ev.kind == 'incdec' and _is_char_ptr(u, ev.lhs):
+            if ev.kind == 'incdec' and _is_char_ptr(u, ev.lhs, need_mutable=False):
                 adv.setdefault(_cursor_key(ev.lhs), []).append(ev)
             elif ev.kind == 'store':
-                if ev.node['op'] in ('+=', '-=') and _is_char_ptr(u, ev.lhs):
+                if ev.node['op'] in ('+=', '-=') and _is_char_ptr(u, ev.lhs, need_mutable=False):
                     adv.setdefault(_cursor_key(ev.lhs), []).append(ev)
                 acc = access(ev.lhs)
                 if acc is not None and _is_char_ptr(u, acc[0]):
@@ -255,15 +255,32 @@ def _inplace_pairs(u, fn):
     `char **` parameters of which one is stored through."""
     adv, sto = _advances_and_stores(u, fn)
     pairs = []
+    # origin[c]: the char* parameter a cursor is (only ever) pointed at; the parameter itself is its own origin
+    origin = {}
+    for p in fn.params:
+        if _is_char_ptr(u, {'k': 'ref', 'ty': p['ty'], 'n': p['n'], 'd': p['d']}, need_mutable=False):
+            origin[p['n']] = p['n']
+    srcs = {}
     for d in fn.locals():
-        if 'init' in d and strip_casts(d['init']).get('k') == 'ref' and strip_casts(d['init']).get('dk') == 'param':
-            w, r = d['n'], strip_casts(d['init'])['n']
-            if w in adv and r in adv and w in sto:
-                pairs.append((w, r, 'local'))
+        if 'init' in d and not is_null_const(d['init']):
+            srcs.setdefault(d['n'], []).append(strip_casts(d['init']))
     for a in assignments(fn):
-        if a['op'] == '=' and is_ref(a['l']) and is_ref(a['r']) and strip_casts(a['r']).get('dk') == 'param':
-            w, r = strip_casts(a['l'])['n'], strip_casts(a['r'])['n']
-            if w in adv and r in adv and w in sto and (w, r, 'local') not in pairs:
+        if is_ref(a['l']) and strip_casts(a['l']).get('dk') in ('local', 'param'):
+            n = strip_casts(a['l'])['n']
+            if a['op'] == '=' and not is_null_const(a['r']):
+                srcs.setdefault(n, []).append(strip_casts(a['r']))
+            elif a['op'] == '=' and n in origin:
+                pass
+    for n, rs in srcs.items():
+        if n in origin:
+            del origin[n]        # a parameter that is re-pointed is no origin
+    for n, rs in srcs.items():
+        ps = {r['n'] for r in rs if r.get('k') == 'ref' and r.get('dk') == 'param' and r['n'] in origin}
+        if len(ps) == 1 and all(r.get('k') == 'ref' and r.get('dk') == 'param' for r in rs):
+            origin[n] = next(iter(ps))
+    for w in sorted(origin):
+        for r in sorted(origin):
+            if w != r and origin[w] == origin[r] and w in adv and r in adv and w in sto and r not in sto:
                 pairs.append((w, r, 'local'))
     pp = [p['n'] for p in fn.params if u.ty(p['ty'])['s'].count('*') == 2 and 'char' in u.ty(p['ty'])['s']]
     if len(pp) == 2:
@@ -295,6 +312,30 @@ def _only_advances(u, fn, pname):
 
 
 INF = 1 << 20
+
+
+def _origin_of(u, fn, w, r):
+    """The parameter both cursors of a 'local' in-place pair are pointed at."""
+    for c in (w, r):
+        if any(p['n'] == c for p in fn.params):
+            return c
+    for d in fn.locals():
+        if d['n'] in (w, r) and 'init' in d and strip_casts(d['init']).get('dk') == 'param':
+            return strip_casts(d['init'])['n']
+    for a in assignments(fn):
+        if a['op'] == '=' and is_ref(a['l']) and strip_casts(a['l'])['n'] in (w, r) and strip_casts(a['r']).get('dk') == 'param':
+            return strip_casts(a['r'])['n']
+    return None
+
+
+def _moved_cursors(node):
+    out = set()
+    for ev in node_effects(node):
+        if ev.kind == 'incdec':
+            out.add(_cursor_key(ev.lhs))
+        elif ev.kind == 'store' and ev.node['op'] in ('+=', '-=', '='):
+            out.add(_cursor_key(ev.lhs))
+    return out
 
 
 def out6(units, R):
@@ -385,14 +426,50 @@ def out6(units, R):
                             L = -INF
             return L
 
-        init = 0 if kind == 'params' else -INF
-        # for 'local' pairs the initialisation `w = r` sets the lag to 0
-        def tr(node, L):
-            if node.kind == 'decl' and node.decl['n'] == w and 'init' in node.decl and _cursor_key(node.decl['init']) == r:
-                return 0
-            return transfer(node, L)
-        states = solve(cfg, init, tr, lambda n, l, s: s, min,
-                       widen=lambda old, new, v: new if v < 6 else (-INF if new < old else old))
+        # state (lag, reader at origin, writer at origin): two cursors pointed at the same unmoved parameter have lag 0
+        origin_param = None
+        if kind == 'local':
+            origin_param = _origin_of(unit, fn, w, r)
+
+        def at_origin_after(node, key):
+            """does this node point cursor `key` at the origin parameter (which must be a different, never-moved variable,
+            or the other cursor while it still stands at the origin)?"""
+            if node.kind == 'decl' and node.decl['n'] == key and 'init' in node.decl:
+                return _cursor_key(node.decl['init'])
+            if node.kind == 'stmt':
+                e = strip_casts(node.expr)
+                if e.get('k') == 'bin' and e['op'] == '=' and _cursor_key(e['l']) == key:
+                    return _cursor_key(e['r'])
+            return None
+
+        def tr(node, S):
+            L, rz, wz = S
+            for key in (w, r):
+                src = at_origin_after(node, key)
+                if src is None:
+                    continue
+                src_at_origin = (src == origin_param and src not in (w, r)) or (src == r and rz) or (src == w and wz)
+                if key == w and src == r:
+                    return (0, rz, rz)
+                if key == r and src == w:
+                    return (0, wz, wz)
+                if key == w:
+                    wz = src_at_origin
+                else:
+                    rz = src_at_origin
+                return (0 if (rz and wz) else -INF, rz, wz)
+            L2 = transfer(node, L)
+            moved = _moved_cursors(node)
+            if r in moved:
+                rz = False
+            if w in moved:
+                wz = False
+            return (L2, rz, wz)
+
+        init = (0, True, True) if kind == 'params' else (-INF, origin_param == r, origin_param == w)
+        states3 = solve(cfg, init, tr, lambda n, l, s: s, lambda a, b: (min(a[0], b[0]), a[1] and b[1], a[2] and b[2]),
+                        widen=lambda old, new, v: new if v < 6 else ((-INF if new[0] < old[0] else old[0]), new[1], new[2]))
+        states = {k: v[0] for k, v in states3.items()}
         for n in cfg.nodes:
             if n.id in states and not (n.kind == 'decl'):
                 transfer(n, states[n.id], record=True)
